@@ -474,6 +474,37 @@ def run(tier, seed):
                              {'item': it, 'a': {'where': ref_where, 'result': ref}, 'b': {'where': w, 'result': r},
                               'mm_source': open(it['path']).read()[:3000] if it['t'] == 'mm' else None,
                               'how': 'harness/impl/c18_runner.py with the job sequence of that seed (see c18.seq_for)'}))
+    # (d) one path string, two contents, in ONE process: every translation must give the files of the content that is at the path
+    #     at the time of the call (= what a fresh process gives for that content)
+    mmgen = [it for it in items if it['t'] == 'mm' and it['path'].startswith(mmdir)]
+    pairs = []
+    for i in range(0, min(len(mmgen) - 1, 6 if quick else 24), 2):
+        pairs.append((mmgen[i], mmgen[i + 1]))
+    sp_jobs, sp_meta = [], []
+    for a, b in pairs:
+        for rel in (False, True):
+            sp_jobs.append({'t': 'mm_same_path', 'a': open(a['path']).read(), 'b': open(b['path']).read(), 'target': 'goal', 'relative': rel})
+            sp_meta.append((a, b, rel))
+    for hs in seeds[:2]:
+        res = run_runner(sp_jobs, hs, os.path.join(scratch, f'sp{hs}'))
+        for (a, b, rel), r in zip(sp_meta, res):
+            how = 'the same relative path from two working directories' if rel else 'one absolute path overwritten in between'
+            for which, it in (('first', a), ('second', b)):
+                R.case(('same-path', key(a), key(b), rel, which, hs), True, 'run:mm:same-path-different-content')
+                ref = obs[key(it)][0][1]
+                got = (r or {}).get(which) or {}
+                if {k: got.get(k) for k in FILES6 + ['err']} != {k: ref.get(k) for k in FILES6 + ['err']}:
+                    findings.append(('history-dependent-output:translate.main:same-path-different-content',
+                                     f'{how}: the {which} translation does not give the files of the database that is at the path '
+                                     f'(differs from a fresh-process translation of the same content in '
+                                     f'{[k for k in FILES6 + ["err"] if got.get(k) != ref.get(k)]})',
+                                     {'item': None, 'relative': rel, 'hashseed': hs, 'which': which,
+                                      'database_first': open(a['path']).read()[:3000], 'database_second': open(b['path']).read()[:3000],
+                                      'got': got, 'expected_like_fresh_process': {k: ref.get(k) for k in FILES6},
+                                      'how': 'harness/impl/c18_runner.py job {"t":"mm_same_path","a":database_first,"b":database_second,'
+                                             '"target":"goal","relative":%s}' % str(rel).lower()}))
+                    break
+
     # real command lines agree with the runner's observation of the same item
     for (ident, hs, od, cmds), r in zip(cmd_jobs, res_cmd):
         R.case(('cmd', ident, hs), True, 'run:real-command-line')
@@ -521,6 +552,22 @@ def replay(path):
     rp = d.get('replay', d)
     print(json.dumps(rp, indent=1)[:3000])
     it = rp.get('item')
+    if rp.get('database_first'):
+        scratch = C.scratch_dir('pi2c18r.')
+        pa, pb = os.path.join(scratch, 'first.mm'), os.path.join(scratch, 'second.mm')
+        open(pa, 'w').write(rp['database_first'])
+        open(pb, 'w').write(rp['database_second'])
+        fresh = [run_runner([{'t': 'mm', 'path': p, 'target': 'goal'}], 0, os.path.join(scratch, f'f{i}'))[0] for i, p in enumerate((pa, pb))]
+        r = run_runner([{'t': 'mm_same_path', 'a': rp['database_first'], 'b': rp['database_second'], 'target': 'goal',
+                         'relative': bool(rp.get('relative'))}], rp.get('hashseed', 0), os.path.join(scratch, 'sp'))[0]
+        bad = 0
+        for which, f in (('first', fresh[0]), ('second', fresh[1])):
+            g = (r or {}).get(which) or {}
+            same = {k: g.get(k) for k in FILES6} == {k: f.get(k) for k in FILES6}
+            print(f'{which} translation from the shared path:', {k: g.get(k) for k in FILES6})
+            print(f'fresh process, same content          :', {k: f.get(k) for k in FILES6}, 'SAME' if same else 'DIFFERENT')
+            bad += not same
+        return 1 if bad else 0
     if not it:
         return 0
     scratch = C.scratch_dir('pi2c18r.')
